@@ -61,7 +61,7 @@ META = {
         "node class that appends ';' may only be built behind a test of self.rawdata.startswith(';', start + len(prefix) + "
         "len(name)) (start = the attribute an updatepos override sets), the other outcome stores prefix + name verbatim. Marked "
         "sections: unknown_decl must write back '<![' and the terminator html.parser stripped (']]>' for its keyword set, ']>' "
-        "otherwise; both read from _markupbase.parse_marked_section), selected by the lower-cased text before the *first* '[' of the reported text. convert_charrefs is False on the whole path; the void "
+        "otherwise; both read from _markupbase.parse_marked_section), selected by the lower-cased text before the *first* '[' of the reported text. Source-text fields: a render of the form `self.F or <rebuilt form>` is judged on the rebuilt form, and every writer of F in the module must store None, a slice of self.rawdata, get_starttag_text() or a copy of F. End tags: because html.parser lower-cases the end-tag name, the container's render must take the end tag from such a field, which the closing function stores from rawdata[start-of-construct : first '>' + 1] passed by handle_endtag. Trailing '&': when feed() ends with close() and the installed goahead(end=True) steps over an '&' + one letter without a handler, a guard dominating close() must be true exactly for those rests (checked on sample strings against html.parser's `incomplete` class, false in raw-text mode), report them through handle_data and take them out of the buffer. Inherited lexical rules: comment / CDATA terminators that admit white space and the raw-text element table without textarea/title are reported (three known findings). convert_charrefs is False on the whole path; the void "
         "table contains the 13 WHATWG void elements plus 'param'. "
         "(R4) With inplace false no mutating, iterating or returning use in strip() can see the element itself; deepcopy does not "
         "write self; the constructor copies the attribute mapping, and a copy started with copy.copy(self) replaces every mutable field (attrs, _children) on the copy. "
@@ -72,7 +72,7 @@ META = {
         "matching open element, nothing otherwise, and never the root (the root's name attribute is modelled, so a guard `name == self.name` is seen to hide open elements of that name); a per-name counter consulted by the closing function must be "
         "+1 at the push and -1 for every popped element. "
         "(R6) No exception escapes tokenize_html, any overridden callback or Element.insert/__setitem__ (escape analysis; the "
-        "HTMLParser.feed entry is discharged by the parse_marked_section override catching AssertionError). "
+        "HTMLParser.feed entry is discharged by the parse_marked_section override catching AssertionError; a call of a list method on the children list that shares its name with the element method is not a recursion). "
         "(R7) __iter__/walk are pre-order in list order, each element once; find() enumerates candidates in that order and its "
         "candidate test - helper methods and lambdas inlined - agrees on a decision table (identifier is class/name, matches or "
         "not, node class Tag/VoidTag/XTag, two abstract requested classes as token / substring-only / absent, 0-2 requested "
@@ -1042,6 +1042,86 @@ def _resolve_name(e: ast.expr, _depth: int = 0) -> ast.expr:
     return e
 
 
+_ALT_FIELDS: set[str] = set()  # fields used as `self.F or <template>` in render methods (reset per R3 run)
+
+
+def _alt_source(e: ast.expr) -> tuple[str, ast.expr] | None:
+    """(field, rebuilt form) for `self.F or X`, `self.F if self.F [is not None] else X`, `X if self.F is None / not self.F else self.F`."""
+    if isinstance(e, ast.BoolOp) and isinstance(e.op, ast.Or) and len(e.values) == 2 and _is_self_attr(e.values[0]):
+        return e.values[0].attr, e.values[1]
+    if isinstance(e, ast.IfExp):
+        t, neg = e.test, False
+        while isinstance(t, ast.UnaryOp) and isinstance(t.op, ast.Not):
+            t, neg = t.operand, not neg
+        if isinstance(t, ast.Compare) and len(t.ops) == 1 and isinstance(t.comparators[0], ast.Constant) and t.comparators[0].value is None and isinstance(t.ops[0], (ast.Is, ast.IsNot)):
+            neg = neg != isinstance(t.ops[0], ast.Is)
+            t = t.left
+        if _is_self_attr(t):
+            present, absent = (e.orelse, e.body) if neg else (e.body, e.orelse)
+            if _is_self_attr(present) and present.attr == t.attr:
+                return t.attr, absent
+    return None
+
+
+def _rawdata_slice(e: ast.expr) -> bool:
+    return isinstance(e, ast.Subscript) and isinstance(e.slice, ast.Slice) and _is_self_attr(e.value, "rawdata")
+
+
+def _is_source_text(P: "Ctx", e: ast.expr | None, fi: FunctionInfo, field: str, depth: int = 0) -> bool:
+    """Is the value of ``e`` None or a piece of the text being parsed (a slice of self.rawdata, get_starttag_text(),
+    the same field of another element, or a parameter / local fed only by such)?"""
+    if e is None or depth > 4:
+        return e is None
+    if isinstance(e, ast.Constant) and e.value is None:
+        return True
+    if _is_starttag_text(e) or _rawdata_slice(e):
+        return True
+    if isinstance(e, ast.Attribute) and e.attr == field:
+        return True
+    if isinstance(e, ast.Name):
+        binds = _bindings(fi, e.id)
+        if binds == ["ENTRY"]:
+            # every call site in the module that passes this parameter
+            d = _param_default(fi, e.id)
+            if d is not None and not _is_source_text(P, d, fi, field, depth + 1):
+                return False
+            params = [p for p in fi.params if p != "self"]
+            idx = params.index(e.id)
+            names = {fi.name} if fi.name != "__init__" else {c.name for c in P.hier if P.c.lookup_method(c, "__init__") is fi} | {"__class__"}
+            for g in P.m.functions.values():
+                if g.is_lambda:
+                    continue
+                for c in walk_local(g.node):
+                    if isinstance(c, ast.Call) and (dotted(c.func) or "").rsplit(".", 1)[-1] in names:
+                        if dotted(c.func) == "super().__init__":
+                            continue
+                        arg = c.args[idx] if idx < len(c.args) else next((k.value for k in c.keywords if k.arg == e.id), None)
+                        if arg is not None and not _is_source_text(P, arg, g, field, depth + 1):
+                            return False
+            return True
+        if len(binds) == 1 and isinstance(binds[0], (ast.Assign, ast.AnnAssign)) and binds[0].value is not None:
+            return _is_source_text(P, binds[0].value, fi, field, depth + 1)
+    return False
+
+
+def _source_field_problems(P: "Ctx", field: str) -> list[str]:
+    """Writers of ``<x>.field`` in the module that store something other than source text / None / a copy of the field."""
+    bad = []
+    n = 0
+    for g in P.m.functions.values():
+        if g.is_lambda:
+            continue
+        for st in walk_local(g.node):
+            tgt = st.targets[0] if isinstance(st, ast.Assign) and len(st.targets) == 1 else getattr(st, "target", None)
+            if isinstance(st, (ast.Assign, ast.AnnAssign)) and isinstance(tgt, ast.Attribute) and tgt.attr == field and st.value is not None:
+                n += 1
+                if not _is_source_text(P, st.value, g, field):
+                    bad.append(f"{g.qualname}: `{short(st, 50)}`")
+    if n == 0:
+        bad.append("no writer found")
+    return bad
+
+
 def _default_truth(t: ast.expr, _depth: int = 0) -> bool | None:
     """Truth of a condition in a render() call without options (str(root)): `kwargs.get(<name>)` is None there."""
     if _depth > 4:
@@ -1090,6 +1170,11 @@ def _template(e: ast.expr) -> list:
                 raise Unsupported(f"formatted value with conversion/spec: {short(v, 40)}")
     elif isinstance(e, ast.BinOp) and isinstance(e.op, ast.Add):
         parts = _template(e.left) + _template(e.right)
+    elif _alt_source(e) is not None:
+        # `self.<source text> or <rebuilt form>`: the rebuilt form is what is compared with the source form of the event;
+        # that the field only ever holds source text is checked separately (_ALT_FIELDS)
+        _ALT_FIELDS.add(_alt_source(e)[0])
+        parts = _template(_alt_source(e)[1])
     elif isinstance(e, ast.IfExp) and _default_truth(e.test) is not None:
         parts = _template(e.body if _default_truth(e.test) else e.orelse)  # decided for a plain render() / str() call
     elif isinstance(e, (ast.Attribute, ast.Name, ast.Call, ast.IfExp)):
@@ -1286,6 +1371,7 @@ def r3_callbacks_and_delimiters(corpus: Corpus, rep: Report, tier: str):
     cbmap = _callback_map(P)
     strips = _stdlib_strips(corpus)
     void_attr, void_set = _void_elements(P)
+    _ALT_FIELDS.clear()
     # (a) exhaustiveness
     for name in _stdlib_callbacks(corpus):
         key = f"{P.parser.fq}.{name}|overrides the stdlib callback"
@@ -1359,6 +1445,17 @@ def r3_callbacks_and_delimiters(corpus: Corpus, rep: Report, tier: str):
     if len(root) != 1:
         raise Unsupported("Tree.__init__ does not construct exactly one root element")
     _judge_shape(P, rep, f"{root[0].fq}|root renders its children only", root[0], ["children"], "the document root")
+    # fields rendered as `self.F or <rebuilt form>` must only ever hold source text
+    for fld in sorted(_ALT_FIELDS):
+        key = f"{P.element.fq}.{fld}|only source text is stored"
+        probs = _source_field_problems(P, fld)
+        if probs:
+            rep.violation("C16.R3", key, P.m.site(P.element.node), f"render() emits `self.{fld}` in place of the rebuilt markup, but {probs[0]} stores something that is not a piece of the parsed text: the rendering no longer reproduces the source")
+        else:
+            rep.ok("C16.R3", key, P.m.site(P.element.node), "every writer stores None, a slice of self.rawdata, get_starttag_text() or a copy of the field")
+    _judge_end_tags(P, rep, cbmap, hp)
+    _judge_trailing_ampersand(P, rep, hp)
+    _judge_inherited_lexical_rules(P, rep, hp, mb, std)
     # (d) void elements
     key = f"{P.parser.fq}.{void_attr}|covers the WHATWG void elements"
     missing = [v for v in WHATWG_VOID + tuple(LEGACY_VOID) if v not in void_set]
@@ -1383,6 +1480,251 @@ def r3_callbacks_and_delimiters(corpus: Corpus, rep: Report, tier: str):
     else:
         _judge_attribute_str(P, rep, hp)
     rep.expect_min("C16.R3", 20, "9 overrides + 6 terminal rows (x2) + 3 tag shapes (x2) + root + void set + charrefs + attribute form on the pinned tree")
+
+
+def _judge_end_tags(P: Ctx, rep: Report, cbmap: dict, hp) -> None:
+    """html.parser lower-cases the name of an end tag and drops the white space before '>': the end tag of a parsed element
+    can only be reproduced from its source text, stored by the closing function from a slice of the buffer."""
+    pe = hp.functions.get("HTMLParser.parse_endtag")
+    if pe is None:
+        raise AnchorMissing("stdlib HTMLParser.parse_endtag not found")
+    lowers = [n for n in walk_local(pe.node) if isinstance(n, ast.Call) and isinstance(n.func, ast.Attribute) and n.func.attr == "lower" and not n.args]
+    void_attr, _ = _void_elements(P)
+    boxes = [e for e in cbmap.get("handle_starttag", []) if e.cls is not None and _void_polarity(e, void_attr) is False]
+    if len(boxes) != 1:
+        raise Unsupported("container element class not found")
+    box = boxes[0].cls
+    r, ret = _render_return(P, box)
+    key = f"{r.fq}|end tags are re-emitted from the source text"
+    site = r.module.site(ret)
+    if not lowers:
+        rep.ok("C16.R3", key, site, "the installed html.parser reports end tag names as written")
+        return
+    # the part of the template that writes the end tag: `self.F or f"</{self.name}>"`
+    fld = None
+    for n in ast.walk(ret.value):
+        alt = _alt_source(n) if isinstance(n, (ast.BoolOp, ast.IfExp)) else None
+        if alt is not None:
+            tpl = _template(alt[1])
+            if len(tpl) == 3 and tpl[0] == ("lit", "</") and tpl[2] == ("lit", ">"):
+                fld = alt[0]
+    if fld is None:
+        rep.violation("C16.R3", key, site, f"{box.name}.render rebuilds the end tag from the name html.parser reports, which is lower-cased ({hp.rel}:{lowers[0].lineno}) and has lost the white space before '>': `<DIV>x</DIV>` is rendered `<DIV>x</div>`, `<p>x</p >` as `<p>x</p>`")
+        return
+    # the closing function stores it on the element it closes, from a parameter the callback feeds with a slice of the buffer
+    pops = [e.tm for e in cbmap.get("handle_endtag", []) if e.cls is None]
+    stores = [(f, st) for f in pops for st in walk_local(f.node) if isinstance(st, ast.Assign) and len(st.targets) == 1 and isinstance(st.targets[0], ast.Attribute) and st.targets[0].attr == fld]
+    if not stores:
+        rep.violation("C16.R3", key, site, f"{box.name}.render prefers self.{fld}, but the closing function never stores it: every end tag is still rebuilt from the lower-cased name (`<DIV>x</DIV>` -> `</div>`)")
+        return
+    problems = []
+    cb = P.parser.methods.get("handle_endtag")
+    oa = _offset_attr(P)
+    for f, st in stores:
+        v = st.value
+        if not (isinstance(v, ast.Name) and v.id in f.params):
+            raise Unsupported(f"{f.fq}: `{short(st, 50)}`")
+        for em in cbmap.get("handle_endtag", []):
+            if em.tm.fq != f.fq:
+                continue
+            act = _actual(em.call, f, v.id)
+            act = _inline_locals(em.to_cb_terms(act), cb) if act is not None else None
+            if act is None:
+                problems.append(f"handle_endtag does not pass the source text of the end tag to {f.name}()")
+            elif not _rawdata_slice(act):
+                problems.append(f"handle_endtag passes `{short(act, 40)}`, which is not a slice of the parsed text")
+            else:
+                lo, up = act.slice.lower, act.slice.upper
+                lo_ok = lo is not None and _is_self_attr(lo) and oa is not None and lo.attr == oa
+                up_ok = (
+                    isinstance(up, ast.BinOp) and isinstance(up.op, ast.Add) and isinstance(up.right, ast.Constant) and up.right.value == 1
+                    and isinstance(up.left, ast.Call) and isinstance(up.left.func, ast.Attribute) and up.left.func.attr in ("find", "index") and _is_self_attr(up.left.func.value, "rawdata")
+                    and len(up.left.args) == 2 and isinstance(up.left.args[0], ast.Constant) and up.left.args[0].value == ">" and unparse(up.left.args[1]) == unparse(lo)
+                ) if lo is not None else False
+                if not lo_ok:
+                    problems.append(f"the slice does not start at the start of the construct (`{short(lo, 30) if lo is not None else ''}`; the updatepos override stores it in self.{oa})")
+                elif not up_ok:
+                    problems.append(f"the slice does not end just after the first '>' (`{short(up, 40) if up is not None else ''}`)")
+    if problems:
+        rep.violation("C16.R3", key, cb.site() if cb else site, "; ".join(problems) + ": the end tag written back is not the one in the source")
+    else:
+        rep.ok("C16.R3", key, site, f"self.{fld} = rawdata[start : first '>' + 1], stored by {', '.join(f.qualname for f, _ in stores)}")
+
+
+class _StrEval:
+    """Concrete evaluation of a guard over one sample string bound to a name and a value for self.cdata_elem."""
+
+    def __init__(self, fi: FunctionInfo, var: str, sample: str, cdata):
+        self.fi, self.var, self.sample, self.cdata = fi, var, sample, cdata
+
+    def ev(self, e: ast.expr):
+        if isinstance(e, ast.Constant):
+            return e.value
+        if _is_name(e, self.var):
+            return self.sample
+        if _is_self_attr(e, "cdata_elem"):
+            return self.cdata
+        if _is_self_attr(e, "rawdata"):
+            return self.sample
+        if isinstance(e, ast.BoolOp):
+            v = None
+            for x in e.values:
+                v = self.ev(x)
+                if bool(v) != isinstance(e.op, ast.And):
+                    return v
+            return v
+        if isinstance(e, ast.UnaryOp) and isinstance(e.op, ast.Not):
+            return not self.ev(e.operand)
+        if isinstance(e, ast.Subscript):
+            v = self.ev(e.value)
+            if isinstance(v, str):
+                try:
+                    if isinstance(e.slice, ast.Slice):
+                        lo = self.ev(e.slice.lower) if e.slice.lower else None
+                        hi = self.ev(e.slice.upper) if e.slice.upper else None
+                        return v[lo:hi]
+                    return v[self.ev(e.slice)]
+                except IndexError:
+                    raise _Stops("IndexError")
+        if isinstance(e, ast.UnaryOp) and isinstance(e.op, ast.USub):
+            return -self.ev(e.operand)
+        if isinstance(e, ast.Compare) and len(e.ops) == 1:
+            l, r, op = self.ev(e.left), self.ev(e.comparators[0]), e.ops[0]
+            if isinstance(op, (ast.Is, ast.IsNot)):
+                return (l is r) == isinstance(op, ast.Is)
+            table = {ast.Eq: lambda: l == r, ast.NotEq: lambda: l != r, ast.In: lambda: l in r, ast.NotIn: lambda: l not in r, ast.Lt: lambda: l < r, ast.LtE: lambda: l <= r, ast.Gt: lambda: l > r, ast.GtE: lambda: l >= r}
+            if type(op) in table:
+                return table[type(op)]()
+        if isinstance(e, ast.Call):
+            if dotted(e.func) == "len" and len(e.args) == 1:
+                return len(self.ev(e.args[0]))
+            if isinstance(e.func, ast.Attribute) and e.func.attr in ("isascii", "isalpha", "isalnum", "islower", "isupper", "isdigit", "isspace", "startswith", "endswith", "lower", "upper", "strip"):
+                v = self.ev(e.func.value)
+                if isinstance(v, str):
+                    return getattr(v, e.func.attr)(*[self.ev(a) for a in e.args])  # a str method on the checker's own sample
+        raise Unsupported(f"{self.fi.fq}: guard term `{short(e, 40)}`")
+
+
+def _judge_trailing_ampersand(P: Ctx, rep: Report, hp) -> None:
+    """With close() at the end of feed(): html.parser's goahead(end=True) steps over an '&' whose incomplete-reference match
+    is the whole buffered rest ('AT&T') without calling a handler, so feed() must report exactly those rests itself."""
+    feed = P.parser.methods.get("feed")
+    if feed is None:
+        return
+    closes = [n for n in walk_local(feed.node) if isinstance(n, ast.Call) and dotted(n.func) == "self.close" and not n.args]
+    key = f"{feed.fq}|a final '&' + letter is reported before close()"
+    if not closes:
+        rep.ok("C16.R3", key, feed.site(), "feed() does not call close(): nothing is stepped over")
+        return
+    ga = hp.functions.get("HTMLParser.goahead")
+    if ga is None:
+        raise AnchorMissing("stdlib HTMLParser.goahead not found")
+    # the quirk in the sibling: `if end and match.group() == rawdata[i:]` ... `i = self.updatepos(i, i + 1)` and no handler call
+    quirk = None
+    for n in walk_local(ga.node):
+        if isinstance(n, ast.If) and "match.group() == rawdata[i:]" in unparse(n.test) and "end" in {x.id for x in ast.walk(n.test) if isinstance(x, ast.Name)}:
+            calls = [c for st in n.body for c in ast.walk(st) if isinstance(c, ast.Call) and isinstance(c.func, ast.Attribute) and _is_name(c.func.value, "self")]
+            if any(c.func.attr == "updatepos" for c in calls) and not any(c.func.attr.startswith("handle_") for c in calls):
+                quirk = n
+    if quirk is None:
+        rep.ok("C16.R3", key, feed.site(), "the installed html.parser does not step over a trailing '&' silently")
+        return
+    inc = _regex_items(hp, "incomplete")
+    if len(inc) != 2 or inc[0] != (sre_c.LITERAL, ord("&")):
+        raise Unsupported("stdlib regex `incomplete` is not '&' + one character class")
+    cfg = get_cfg(feed)
+    close_stmt = cfg.stmt_of(closes[0])
+    cands = []
+    for n in walk_local(feed.node):
+        if isinstance(n, ast.If) and not n.orelse and cfg.dominates(n, close_stmt):
+            hd = [c for st in n.body for c in ast.walk(st) if isinstance(c, ast.Call) and dotted(c.func) == "self.handle_data" and len(c.args) == 1]
+            if hd and any(isinstance(x, ast.Constant) and x.value == "&" for x in ast.walk(n.test)):
+                cands.append((n, hd[0]))
+    if not cands:
+        rep.violation("C16.R3", key, feed.site(), f"feed() ends with close(), and html.parser's goahead(end=True) ({hp.rel}:{quirk.lineno}) steps over an '&' that is followed by one last letter without calling a handler: tokenize_html('AT&T') renders 'ATT'")
+        return
+    if len(cands) != 1:
+        raise Unsupported(f"{feed.fq}: several candidate guards for the trailing '&'")
+    guard, hd = cands[0]
+    names = {x.id for x in ast.walk(guard.test) if isinstance(x, ast.Name)} - {"self", "len"}
+    if len(names) != 1:
+        raise Unsupported(f"{feed.fq}: the guard `{short(guard.test, 50)}` is not over one local")
+    (var,) = names
+    last = [b for b in _bindings(feed, var) if isinstance(b, ast.Assign) and _is_self_attr(b.value, "rawdata")]
+    if not last:
+        raise Unsupported(f"{feed.fq}: `{var}` is not bound to self.rawdata")
+    problems = []
+    samples = ["&a", "&T", "&z", "&Z", "&m", "&1", "&é", "&&", "& ", "ab", "&", "&ab", "", "a&"]
+    for cd in (None, "script"):
+        for sm in samples:
+            want = cd is None and len(sm) == 2 and sm[0] == "&" and sm[1] != "#" and _class_accepts(inc[1], sm[1])
+            try:
+                got = bool(_StrEval(feed, var, sm, cd).ev(guard.test))
+            except _Stops as e:
+                problems.append(f"the guard raises {e.why} for a buffered rest {sm!r}")
+                break
+            if got != want and not problems:
+                problems.append(f"for a buffered rest {sm!r}{' inside <script>' if cd else ''} the guard is {got}, but html.parser {'steps over' if want else 'does not step over'} that '&'" + (" - it is reported twice or not at all" if not want else " - it is lost"))
+    # what is reported, and what is left for close()
+    arg = hd.args[0]
+    sets = [st for st in guard.body if isinstance(st, ast.Assign) and len(st.targets) == 1 and _is_self_attr(st.targets[0], "rawdata")]
+    whole = _is_name(arg, var)
+    amp = (isinstance(arg, ast.Constant) and arg.value == "&") or (isinstance(arg, ast.Subscript) and _is_name(arg.value, var) and isinstance(arg.slice, ast.Constant) and arg.slice.value == 0)
+    if not sets:
+        problems.append("the buffer is not shortened after the report: close() reports the letter a second time ('AT&T' -> 'AT&TT')")
+    elif whole and not (isinstance(sets[0].value, ast.Constant) and sets[0].value.value == ""):
+        problems.append(f"the whole rest is reported but the buffer becomes `{short(sets[0].value, 30)}`")
+    elif amp and not (isinstance(sets[0].value, ast.Subscript) and _is_name(sets[0].value.value, var) and unparse(sets[0].value.slice) == "1:"):
+        problems.append(f"'&' is reported but the buffer becomes `{short(sets[0].value, 30)}` instead of the rest after it")
+    elif not whole and not amp:
+        raise Unsupported(f"{feed.fq}: handle_data({short(arg, 30)}) in the trailing-'&' branch")
+    if problems:
+        rep.violation("C16.R3", key, feed.module.site(guard), "; ".join(problems[:2]))
+    else:
+        rep.ok("C16.R3", key, feed.module.site(guard), f"`{short(guard.test, 60)}` is true exactly for '&' + one of html.parser's `incomplete` letters outside raw-text mode; the rest is handed to handle_data and taken out of the buffer")
+
+
+# raw-text elements of HTML (WHATWG 13.1.2): script, style (raw text) and textarea, title (escapable raw text)
+RAW_TEXT_ELEMENTS = ("script", "style", "textarea", "title")
+
+
+def _judge_inherited_lexical_rules(P: Ctx, rep: Report, hp, mb, std: ClassInfo) -> None:
+    """Lexical rules HtmlToAst inherits unchanged from the interpreter's tokenizer and that differ from HTML."""
+    site = P.m.site(P.parser.node)
+    # comment / marked-section terminators
+    for what, meth, mod, rx, exact, example in (
+        ("comment", "parse_comment", mb, "_commentclose", "-->", "`<!-- a -- > b -->` ends at `-- >`: `b -->` becomes live markup"),
+        ("marked section", "parse_marked_section", mb, "_markedsectionclose", "]]>", "`<![CDATA[ a ] ]> b ]]>` ends at `] ]>`"),
+    ):
+        key = f"{P.parser.fq}|{what} terminator is exactly {exact!r}"
+        own = P.parser.methods.get(meth)
+        inherits = own is None or any(isinstance(c, ast.Call) and dotted(c.func) == f"super().{meth}" for c in walk_local(own.node))
+        if not inherits:
+            rep.ok("C16.R3", key, site, f"{meth} is re-implemented in HtmlToAst")
+            continue
+        items = _regex_items(mod, rx)
+        loose = [it for it in items if it[0] is not sre_c.LITERAL]
+        if _min_literal(items) == exact and not loose:
+            rep.ok("C16.R3", key, site, f"the installed {mod.rel} ends a {what} at {exact!r} only")
+        else:
+            rep.violation("C16.R3", key, site, f"HtmlToAst inherits {meth} from {mod.rel}, whose terminator `{rx}` admits white space inside {exact!r}: {example} and is re-rendered differently")
+    # raw-text elements
+    key = f"{P.parser.fq}|raw-text elements cover textarea and title"
+    own_attr = any(isinstance(st, (ast.Assign, ast.AnnAssign)) and "CDATA_CONTENT_ELEMENTS" in unparse(st.targets[0] if isinstance(st, ast.Assign) else st.target) for st in P.parser.node.body)
+    if own_attr or "set_cdata_mode" in P.parser.methods:
+        raise Unsupported("HtmlToAst defines its own raw-text elements / set_cdata_mode")
+    val = None
+    for st in std.node.body:
+        if isinstance(st, ast.Assign) and len(st.targets) == 1 and _is_name(st.targets[0], "CDATA_CONTENT_ELEMENTS"):
+            val = hp.eval_const(st.value)
+    if val is None:
+        raise AnchorMissing("stdlib HTMLParser.CDATA_CONTENT_ELEMENTS not found")
+    missing = [x for x in RAW_TEXT_ELEMENTS if x not in val]
+    rcdata = [st for st in std.node.body if isinstance(st, ast.Assign) and "RCDATA" in unparse(st.targets[0])]
+    if missing and not rcdata:
+        rep.violation("C16.R3", key, site, f"html.parser ({hp.rel}) switches to raw-text mode only for {sorted(val)}: the text content of {missing} is tokenised as markup - `<textarea><b></textarea>` renders `<textarea><b></b></textarea>` and find('input') returns an `<input>` written as text inside a <textarea>")
+    else:
+        rep.ok("C16.R3", key, site, f"raw-text elements of the installed html.parser: {sorted(val)}" + (" + RCDATA elements" if rcdata else ""))
 
 
 def _offset_attr(P: Ctx) -> str | None:
@@ -2670,6 +3012,7 @@ class _EncloseRun:
         self.root_attr = _root_attr(P)
         self.root_name_attrs = _root_name_attrs(P)
         self.name_param = [p for p in fi.params if p != "self"][0]
+        self.opaque = set([p for p in fi.params if p != "self"][1:])  # further payload (e.g. the source text of the end tag)
         self.env: dict[str, object] = {}
         self.pops = 0
         self.iterating = 0
@@ -2884,7 +3227,7 @@ class _EncloseRun:
             if k == "name" or k.matches:
                 self.count_match[cu[0]] -= 1
             return None
-        if isinstance(st, ast.Assign) and len(st.targets) == 1 and isinstance(st.targets[0], ast.Attribute) and st.targets[0].attr not in FIELDS and isinstance(st.value, ast.Constant):
+        if isinstance(st, ast.Assign) and len(st.targets) == 1 and isinstance(st.targets[0], ast.Attribute) and st.targets[0].attr not in FIELDS and (isinstance(st.value, ast.Constant) or (isinstance(st.value, ast.Name) and st.value.id in self.opaque)):
             if isinstance(self.ev(st.targets[0].value), _Entry):
                 return None  # a plain flag on an open element (e.g. ind.closed = True)
         if isinstance(st, ast.Assign) and len(st.targets) == 1:
@@ -2951,8 +3294,9 @@ def _judge_enclose(P: Ctx, rep: Report, fi: FunctionInfo) -> None:
     ops = _stack_ops(P, fi)
     if not ops or any(not (isinstance(op, ast.Call) and op.func.attr == "pop" and not op.args) for op in ops):
         raise Unsupported(f"{fi.fq}: stack writes other than pop()")
-    if len([p for p in fi.params if p != "self"]) != 1:
-        raise Unsupported(f"{fi.fq}: parameters {fi.params}")
+    own = [p for p in fi.params if p != "self"]
+    if not own or not any(isinstance(c, ast.Compare) and any(_is_name(x, own[0]) for x in [c.left] + c.comparators) for c in ast.walk(fi.node)):
+        raise Unsupported(f"{fi.fq}: the first parameter is not the closing tag's name ({fi.params})")
     bad_match = bad_nomatch = bad_root = None
     used_counters = sorted({P.counter_of(x) for x in ast.walk(fi.node) if P.counter_of(x)})
     bad_counter: dict[str, str] = {}
@@ -3046,6 +3390,9 @@ def r6_totality(corpus: Corpus, rep: Report, tier: str):
         rep.analysed[k] |= tmp.analysed[k]
     r2_clean = not any(i.rule == "C16.R2" and i.status == "violation" for i in rep.items) and not any(r == "C16.R2" for r, _ in rep.errors)
     for it in tmp.items:
+        if it.status == "violation" and _is_list_method_call(P, it.key):
+            rep.ok("C16.R6", it.key, it.site, "the receiver is the children list (list.__setitem__ / list.insert), not an element: no recursion (engine resolves the call by method name)")
+            continue
         if it.status == "violation" and r2_clean and _is_link_assertion(P, it.key):
             # the engine tables this for Element.insert/__setitem__/reset_children by name; the same guard moved into a helper
             rep.assumed("C16.R6", it.key, it.site, "link-consistency assertion of the Element hierarchy: C16.R1/R2 show that only fresh Elements are inserted while parsing")
@@ -3054,6 +3401,23 @@ def r6_totality(corpus: Corpus, rep: Report, tier: str):
     rep.errors.extend(tmp.errors)
     rep.ok("C16.R6", "last() never sees an empty stack", P.m.func("tokenize_html").site(), "C16.R5: the closing function never pops the root (whatever name the root was given), every other function leaves at least what it found")
     rep.expect_min("C16.R6", 2, "HTMLParser.feed catalogue entry + the stack-never-empty argument")
+
+
+def _is_list_method_call(P: Ctx, key: str) -> bool:
+    """key = entry=..|RecursionError|origin=<fq>|<call text>: the call is `self._children.<m>(...)` inside Element.<m>."""
+    parts = key.split("|", 3)
+    if len(parts) != 4 or parts[1] != "RecursionError" or not parts[2].startswith("origin="):
+        return False
+    mname, _, q = parts[2][len("origin="):].partition(":")
+    mod = P.c.modules.get(mname)
+    fi = mod.functions.get(q) if mod is not None else None
+    if fi is None or not P.in_hier(P.owner_class(fi)):
+        return False
+    for n in walk_local(fi.node):
+        if isinstance(n, ast.Call) and short(n) == parts[3] and isinstance(n.func, ast.Attribute) and _is_self_attr(n.func.value, "_children"):
+            init = P.element.methods.get("__init__")
+            return init is not None and any(isinstance(a, (ast.Assign, ast.AnnAssign)) and _is_self_attr(a.targets[0] if isinstance(a, ast.Assign) else a.target, "_children") and isinstance(a.value, ast.List) for a in walk_local(init.node))
+    return False
 
 
 def _is_link_assertion(P: Ctx, key: str) -> bool:
@@ -4163,6 +4527,37 @@ def mutants(corpus: Corpus):
         add("c16-revert-root-is-not-an-open-element", "C16.R5", rt, " and ".join(unparse(v) for v in keep), "the root is never treated")
     else:
         out.append(("c16-revert-root-is-not-an-open-element", "enclose() has no `is not <root>` conjunct"))
+    # 87e6c94: end tags from the source text - revert and partial weakenings
+    tgr = m.classes.get("Tag")
+    alt_ = find_node(tgr.methods["render"], lambda n: isinstance(n, ast.BoolOp) and isinstance(n.op, ast.Or) and _is_self_attr(n.values[0]) and "</" in unparse(n.values[1])) if tgr else None
+    add("c16-revert-end-tag-from-source", "C16.R3", alt_, unparse(alt_.values[1]) if alt_ is not None else "", "end tags are re-emitted")
+    if alt_ is not None:
+        efld = alt_.values[0].attr
+        est = find_node(en, lambda n: isinstance(n, ast.Assign) and isinstance(n.targets[0], ast.Attribute) and n.targets[0].attr == efld)
+        add("c16-end-tag-source-never-stored", "C16.R3", est, "pass", "end tags are re-emitted")
+        he = H.get("handle_endtag")
+        rsl = find_node(he, lambda n: _rawdata_slice(n)) if he else None
+        if rsl is not None and isinstance(rsl.slice.upper, ast.BinOp):
+            add("c16-end-tag-source-without-closing-bracket", "C16.R3", rsl.slice.upper, unparse(rsl.slice.upper.left), "end tags are re-emitted")
+            hp_ = [p_ for p_ in he.params if p_ != "self"]
+            add("c16-end-tag-source-rebuilt-from-name", "C16.R3", rsl, 'f"</{' + hp_[0] + '}>"' if hp_ else "", "end tags are re-emitted")
+    # 03333c2: a final '&' + letter before close() - revert and partial weakenings
+    fd = H.get("feed")
+    amp_if = find_node(fd, lambda n: isinstance(n, ast.If) and any(isinstance(x, ast.Constant) and x.value == "&" for x in ast.walk(n.test)) and any(isinstance(c_, ast.Call) and dotted(c_.func) == "self.handle_data" for st_ in n.body for c_ in ast.walk(st_))) if fd else None
+    add("c16-revert-trailing-ampersand-reported", "C16.R3", amp_if.test if amp_if is not None else None, "False", "a final '&' + letter")
+    if amp_if is not None:
+        ia = find_node(fd, lambda n: isinstance(n, ast.Call) and isinstance(n.func, ast.Attribute) and n.func.attr == "isalpha" and any(n is x for x in ast.walk(amp_if.test)))
+        add("c16-trailing-ampersand-lower-case-only", "C16.R3", ia, unparse(ia.func.value) + ".islower()" if ia is not None else "", "a final '&' + letter")
+        asc = find_node(fd, lambda n: isinstance(n, ast.Call) and isinstance(n.func, ast.Attribute) and n.func.attr == "isascii" and any(n is x for x in ast.walk(amp_if.test)))
+        add("c16-trailing-ampersand-non-ascii-too", "C16.R3", asc, "True", "a final '&' + letter")
+        rs_ = next((st_ for st_ in amp_if.body if isinstance(st_, ast.Assign) and _is_self_attr(st_.targets[0], "rawdata")), None)
+        add("c16-trailing-ampersand-letter-reported-twice", "C16.R3", rs_, "pass", "a final '&' + letter")
+        cd_ = find_node(fd, lambda n: isinstance(n, ast.UnaryOp) and isinstance(n.op, ast.Not) and _is_self_attr(n.operand, "cdata_elem") and any(n is x for x in ast.walk(amp_if.test)))
+        add("c16-trailing-ampersand-also-in-raw-text", "C16.R3", cd_, "True", "a final '&' + letter")
+    # a field rendered in place of the markup receives something that is not source text
+    pb = H.get("parse_bogus_comment")
+    rw = find_node(pb, lambda n: isinstance(n, ast.Assign) and isinstance(n.targets[0], ast.Attribute) and n.targets[0].attr == "raw") if pb else None
+    add("c16-comment-source-field-fed-with-rebuilt-text", "C16.R3", rw.value if rw is not None else None, '"<!--" + self.rawdata[i + 2 : j - 1] + "-->"', "only source text is stored")
     # classes of partial weakening of those repairs
     if ud is not None:
         sp = find_node(ud, lambda n: isinstance(n, ast.Call) and isinstance(n.func, ast.Attribute) and n.func.attr == "split" and len(n.args) == 2)
